@@ -127,12 +127,14 @@ Canon(x, h) == CanonP(x, h, <<>>)
 \* structural equality of canonical terms; sets / frozensets / dicts are unordered.
 \* A call of the set / frozenset builtin on a container display (how a decompiler must write a
 \* frozenset, Python having no literal for it) denotes that set: NormT rewrites it to the value.
+RECURSIVE NormT(_)
 NormT(c) ==
   IF c.k = "obj"
   THEN IF /\ c.f.k = "g" /\ c.f.m = "builtins" /\ c.f.n \in {"set", "frozenset"}
           /\ Len(c.a) = 1 /\ Len(c.kw) = 0 /\ Len(c.s) = 0 /\ Len(c.li) = 0 /\ Len(c.di) = 0
-       THEN IF c.a[1].k \in {"list", "tuple", "set", "frozenset"}
-            THEN [k |-> c.f.n, e |-> c.a[1].e] ELSE c
+       THEN LET x == NormT(c.a[1]) IN                      \* inside out: set(frozenset({...})) is a set
+            IF x.k \in {"list", "tuple", "set", "frozenset"}
+            THEN [k |-> c.f.n, e |-> x.e] ELSE c
        ELSE c
   ELSE c
 
